@@ -15,14 +15,13 @@
    Convert - then ReverseTranslate (populateStruct, alias Unmangle).
 
    Outcome codes added here.  Err: 30 flag provided but not defined, 31 value
-   overflows the leaf type (willOverflow), 95 two leaves share a flag name
-   (outside the property and outside this model: the second flag is silently
-   not registered and the first flag's value is written into the second
-   field).  Panic: 4 reflect.StructOf duplicate field name. *)
+   overflows the leaf type (willOverflow), 32 two leaves map to the same flag
+   name, 33 a flag name the std package rejects, 4 two flattened fields with one Go
+   name (TranslateType's error since the fix). *)
 From Coq Require Import String.
 From Coq Require Import List NArith ZArith Bool.
 From Dials Require Import Base.Outcome Base.Runes Reflect.Ty Reflect.Ptrify Stack.Overlay Text.CaseConv
-  Text.ParseText Sources.Flatten Sources.Env.
+  Text.ParseInt Text.Quote Text.Split Text.ParseText Sources.Flatten Sources.Env.
 Import ListNotations.
 Open Scope list_scope.
 Open Scope N_scope.
@@ -169,21 +168,24 @@ Fixpoint has_dup_key (l : list str) : bool :=
 
 Definition set_unit : val := VStruct [].
 
-(* grouped form of StringStringSliceMap: same key accumulates in order *)
-Definition group_kvs (kvs : list (str * str)) (m0 : list (val * val)) : list (val * val) :=
+(* MapStringStringSliceFlag: the parsed lists are appended per key *)
+Definition merge_mss (parsed : list (str * list str)) (m0 : list (val * val)) : list (val * val) :=
   fold_left (fun m kv => map_put (VStr (fst kv))
                                  (VList (vlist_of (match map_find (VStr (fst kv)) m with Some x => x | None => VNil end)
-                                         ++ [VStr (snd kv)])) m) kvs m0.
+                                         ++ map VStr (snd kv))) m) parsed m0.
 
-(* flag.Value.Set for each kind.  TextUnmarshaler structs are the palette's:
-   pointer receiver stores the text, value receiver is a no-op. *)
+(* flag.Value.Set for each kind.  The packages' own setters are
+   strconv.ParseBool / ParseInt / ParseUint at the flag's bit size
+   (Text/ParseInt.v), flaghelper's go through package parse (Text/Split.v,
+   Text/ParseInt.v: the models of property C15).  TextUnmarshaler structs are
+   the palette's: pointer receiver stores the text, value receiver is a no-op. *)
 Definition flag_set (k : fkind) (st : fstate) (text : str) : outcome fstate :=
   let upd v := Ok (mkFstate v false) in
   match k with
   | FkString => upd (VStr text)
-  | FkBool => b <- parse_bool text ;; upd (VBool b)
-  | FkInt b => z <- parse_int b text ;; upd (VInt z)
-  | FkUint b => n <- parse_uint b text ;; upd (VInt (Z.of_N n))
+  | FkBool => b <- PS.parse_bool text ;; upd (VBool b)
+  | FkInt b => z <- parse_int text b ;; upd (VInt z)
+  | FkUint b => n <- ures_out (parse_uint text b) ;; upd (VInt (Z.of_N n))
   | FkFloat b => z <- parse_float b text ;; upd (VFloat z)
   | FkComplex b => v <- parse_complex b text ;; upd v
   | FkDuration => z <- parse_duration text ;; upd (VInt z)
@@ -191,32 +193,25 @@ Definition flag_set (k : fkind) (st : fstate) (text : str) : outcome fstate :=
   | FkText false => upd (st_val st)
   | FkIP => v <- parse_ip text ;; upd v
   | FkStrSlice native =>
-      (* pflag reads the text with encoding/csv: empty fields are kept, the
-         empty text is the empty list; flaghelper skips empty fields *)
-      ws <- (if native then
-               match text with
-               | [] => Ok []
-               | _ => if forallb (fun c => simple_rune c || (c =? 44)) text then Ok (split_on 44 [] text)
-                      else Err e_unmodelled
-               end
-             else simple_csv text) ;;
+      (* pflag reads the text with encoding/csv (empty fields are kept);
+         flaghelper.StringSliceFlag uses parse.StringSlice *)
+      ws <- (if native then pflag_csv text else string_slice isp0 text) ;;
       upd (VList ((if st_defaulted st then [] else vlist_of (st_val st)) ++ map VStr ws))
   | FkIntSlice signed bits =>
-      vs <- int_slice signed bits text ;;
+      vs <- (if signed then omap (map VInt) (signed_slice (sw_of bits) text)
+             else omap (map (fun n => VInt (Z.of_N n))) (unsigned_slice (uw_of bits) text)) ;;
       upd (VList ((if st_defaulted st then [] else vlist_of (st_val st)) ++ vs))
   | FkStrMap =>
-      kvs <- simple_kvs text ;;
-      if has_dup_key (map fst kvs) then Err e_syntax else
+      kvs <- map_ss_parse isp0 text ;;           (* parse.Map: a repeated key is an error *)
       upd (VMap (fold_left (fun m kv => map_put (VStr (fst kv)) (VStr (snd kv)) m) kvs
                            (if st_defaulted st then [] else vmap_of (st_val st))))
   | FkStrSet =>
-      ws <- simple_csv text ;;
-      if has_dup_key ws then Err e_syntax else
+      ws <- string_set isp0 text ;;              (* parse.StringSet: a repeated member is an error *)
       upd (VMap (fold_left (fun m w => map_put (VStr w) set_unit m) ws
                            (if st_defaulted st then [] else vmap_of (st_val st))))
   | FkStrSliceMap =>
-      kvs <- simple_kvs text ;;
-      upd (VMap (group_kvs kvs (if st_defaulted st then [] else vmap_of (st_val st))))
+      kvs <- mss_parse isp0 text ;;
+      upd (VMap (merge_mss kvs (if st_defaulted st then [] else vmap_of (st_val st))))
   end.
 
 (* ---- registration ---- *)
@@ -235,12 +230,32 @@ Definition mk_reg (p : pkg) (fs : fields) (tmpl : list val) (l : leaf) : reg :=
         (if dash_tag p l then None else flag_kind p (strip_ptr_ty (lf_ty l)))
         (template_value fs tmpl l).
 
+(* names the std flag package rejects (flag.Var panics on them; registerFlags
+   returns an error since the fix) *)
+Definition bad_std_name (n : str) : bool :=
+  match n with 45 :: _ => true | _ => existsb (N.eqb 61) n end.
+
+(* the registration loop: a flag name already taken by an earlier leaf is an
+   error (since the fix; before, the later flag was silently not registered
+   and the earlier flag's value written into the later field); "-" suppresses
+   registration; a name the std package rejects is an error *)
+Fixpoint reg_errors (p : pkg) (seen : list str) (regs : list reg) : option N :=
+  match regs with
+  | [] => None
+  | r :: rest =>
+      let n := rg_name r in
+      if negb (str_eqb n dash) && existsb (str_eqb n) seen then Some 32
+      else if dash_tag p (rg_leaf r) then reg_errors p (n :: seen) rest
+      else if match p with PStd => bad_std_name n | PPflag => false end then Some 33
+      else reg_errors p (n :: seen) rest
+  end.
+
 Definition flag_regs (p : pkg) (ne te : N) (fs : fields) (tmpl : list val) : outcome (list reg) :=
   let pfs := ptrify_fields fs in
   ls <- flatten (flag_cfg ne te) (alias_fields (flag_alias_keys p) pfs) ;;
-  if has_dup (map lf_name ls) then Panic 4 else
+  if has_dup (map lf_name ls) then Err 4 else
   let regs := map (mk_reg p fs tmpl) ls in
-  if has_dup (map rg_name regs) then Err 95 else Ok regs.
+  match reg_errors p [] regs with Some c => Err c | None => Ok regs end.
 
 (* what FlagSet.VisitAll shows: name and default of every registered flag;
    a nil slice / map default and an empty one render alike *)
